@@ -617,7 +617,8 @@ pub enum Subsystem {
 }
 
 impl Subsystem {
-    fn from_frame(mut r: Frame) -> Option<Subsystem> {
+    /// Take the next reported subsystem change out of the frame, if there is one left.
+    fn from_frame(r: &mut Frame) -> Option<Subsystem> {
         r.get("changed").map(|raw| match &*raw {
             "database" => Subsystem::Database,
             "message" => Subsystem::Message,
